@@ -251,7 +251,7 @@ SCENARIOS = dict(
                     'net2_tanh:resume/0/2+resume/1/2', 'two_split', 'nlb',
                     'b7_update:resume/0/2+resume/1/2+slices/0/2+slices/1/2',
                     'const:resume/0/2+resume/1/2',
-                    'long_b5:resume1/0/3+resume1/1/3+resume1/2/3'],
+                    'long_b5:resume1/0/3+resume1/1/3+resume1/2/3', 'half:resume2', 'plateau:resume2'],
              thorough=['gauss', 'gauss_s', 'gauss_d', 'gauss_net', 'two', 'ring_net', 'half', 'wrap',
                        'wrap_net', 'g3_pool_s', 'blob_float', 'blob_int_vec', 'blob_two_obj',
                        'blob_array_pool', 'blob_struct_dictfn', 'blob_f32_inplace',
